@@ -79,7 +79,7 @@ def prepare(tier, scratch):
         hdr = gen_c01.parse_dump_header(open(dump_h).read())
         cases_h = os.path.join(scratch, "c01_%s_cases.h" % name)
         entries = None
-        for level in levels:
+        for level in ([0, 1, 2, 3] if g["opts"].get("all_levels") else levels):
             try:
                 lifted, dump = lift_group(mirgen, g, level, scratch, hdr)
             except GenCrash as e:
